@@ -5,4 +5,4 @@ From SV Require Import Lib.Bytes Lib.ExtractBase Model.Args Model.SshArgv.
 Extraction "c16_model.ml" extract_anchor parse_subnetport parse_subnetport_asfound parse_ipport parse_hostport
   subnet_groups ipport_groups argparse_type inet_aton print_v4 parse_v4_strict parse_v6
   print_v6 py_ip_str getaddrinfo gai_port effective merge_args tbl_lookup render4 render6
-  connect_argv.
+  connect_argv listen_dispatch.
